@@ -332,7 +332,7 @@ def obligations():
 
 RULE_KINDS = [
     ("str_array_ref_exp", "A1$(1)", True), ("str_var", "A1$", True), ("str_literal", '"x"', True), ("str2_func_exp", "LEFT$(A1$,2)", True),
-    ("str2_func_exp", "RIGHT$(A1$,2)", True), ("str3_func_exp", "MID$(A1$,1,2)", True), ("num_str_func_exp", "CHR$(65)", True),
+    ("str2_func_exp", "RIGHT$(A1$,2)", True), ("str3_func_exp", "MID$(A1$,1,2)", True), ("num_str_func_exp", "CHR$(65)", True), ("num_str_func_exp", "TAB(5)", True),
     ("num_str_func_exp_statements", "STR$(1)", True), ("num_str_func_exp_statements", "HEX$(1)", True), ("str_func_exp_statements", "INKEY$", True),
     ("string_expr", "STRING$(3,A1$)", True), ("str_exp", "A1$+B2$", True), ("str_exp", "A1$(2)", True), ("print_arg", "A1$(2)", True), ("rhs", "A1$(2)", True),
     ("array_ref_exp", "A1(1)", False), ("var", "A1", False), ("num_literal", "1.5", False), ("hex_literal", "&HFF", False), ("func_exp", "ABS(1)", False),
